@@ -18,16 +18,21 @@ Main theorems (model A = Flatland/Path.lean, spec B = Flatland/Spec/C14.lean):
 * `C14_Full` / `C14_full_fails`  without `Canon` the statement is false of the code as it is
                       (KF-C14-a): `nosuch/..` strict.
 
+* `tokenize_print_names`  tokenizer ∘ printer on paths of name steps (absolute or relative, any
+                      spellable names, minimal or full escaping): escaped punctuation is a
+                      literal name character.
+
 Not proved here: `tokenize (print p) = compile p` for the whole concrete syntax (stated as
-`TokenizePrint_Full`); proved for paths of name steps (`tokenize_print_names`, Proofs/Lemmas/PathScan.lean);
-the rest of the grammar is tied by correspondence and the exhaustive enumeration of short strings.
+`TokenizePrint_Full`): the bracket, `.` and `..` spellings are tied to the code by correspondence
+and by the exhaustive enumeration of short strings over the path alphabet only.
 -/
 import Flatland.Path
 import Flatland.Spec.C14
 import Proofs.Lemmas.C14Work
 import Proofs.Lemmas.C14Slice
+import Proofs.Lemmas.C14Print
 namespace Flatland.C14.Proofs
-open Flatland.Path Flatland.C14.Spec
+open Flatland.Path Flatland.C14.Spec Flatland.Path.Lemmas
 
 /-! ### the work list -/
 
@@ -703,5 +708,99 @@ theorem C14_full_fails : ¬ C14_Full := by
       = .error .lookup := by decide
   rw [h1, h2] at this
   cases this
+
+/-! ### tokenizer ∘ printer -/
+
+/-- the whole statement: every well-formed concrete path tokenizes to its compiled op list
+    (canonicalised exactly when it contains `.` or `..`).  Proved below for the name fragment;
+    the bracket/`.`/`..` spellings are tied to the code by correspondence and by the exhaustive
+    enumeration of short strings only. -/
+def TokenizePrint_Full : Prop :=
+  ∀ p : CPath, p.wf = true →
+    tokenize (print p) = .ok
+      (if p.steps.any (fun c => c.step.isUp || c.step.isHere) then canonicalize (compile p.abstract)
+       else compile p.abstract)
+
+/-- a name step written as a segment (not as `[n]`), for a name the grammar can spell -/
+def NameSeg (c : CStep) : Prop := ∃ s, c.step = .name s ∧ c.sp.bracket = false ∧ GoodName s = true
+
+theorem nameSeg_text (c : CStep) (s : Str) (h1 : c.step = .name s) (h2 : c.sp.bracket = false) :
+    c.text = (escapeSeg c.sp.escAll s, false) := by
+  unfold CStep.text
+  rw [h1]
+  simp [h2]
+
+theorem printSteps_false : ∀ cs : List CStep, (∀ c ∈ cs, NameSeg c) →
+    printSteps false cs = slashJoin (cs.map (fun c => c.text.1))
+  | [], _ => rfl
+  | c :: r, h => by
+    obtain ⟨s, h1, h2, _⟩ := h c (by simp)
+    have ih := printSteps_false r (fun x hx => h x (by simp [hx]))
+    simp only [printSteps, nameSeg_text c s h1 h2, Bool.false_or, Bool.false_and, Bool.false_eq_true, if_false, ih]
+    simp [slashJoin, nameSeg_text c s h1 h2]
+
+theorem segsOK_of_all : ∀ l : List Str,
+    (∀ x ∈ l, x ≠ [] ∧ cleanB true x = true ∧ cleanB false x = true) → SegsOK l
+  | [], _ => trivial
+  | [s], h => ⟨(h s (by simp)).1, (h s (by simp)).2.1⟩
+  | s :: s2 :: r, h =>
+    ⟨(h s (by simp)).1, (h s (by simp)).2.2, segsOK_of_all (s2 :: r) (fun x hx => h x (by simp [hx]))⟩
+
+/-- **tokenizer ∘ printer on name paths** (absolute or relative, any number of steps, any
+    spellable names, minimal or full escaping): the op list is exactly the compiled AST —
+    in particular escaped `/ [ ] .` are literal name characters and `\.`/`\.\.` are names -/
+theorem tokenize_print_names (top : Bool) (cs : List CStep) (h : ∀ c ∈ cs, NameSeg c) :
+    tokenize (print ⟨top, false, cs⟩) = .ok (compile (CPath.abstract ⟨top, false, cs⟩)) := by
+  have htexts : ∀ x ∈ cs.map (fun c => c.text.1),
+      (x ≠ [] ∧ cleanB true x = true ∧ cleanB false x = true) ∧ PlainSeg x := by
+    intro x hx
+    simp only [List.mem_map] at hx
+    obtain ⟨c, hc, rfl⟩ := hx
+    obtain ⟨s, h1, h2, h3⟩ := h c hc
+    rw [nameSeg_text c s h1 h2]
+    have ft := escapeSeg_facts true c.sp.escAll s h3
+    have ff := escapeSeg_facts false c.sp.escAll s h3
+    exact ⟨⟨ft.1, ft.2.1, ff.2.1⟩, ft.2.2.1⟩
+  have hnames : cs.map (fun c => Op.name (some (unescape c.text.1))) = cs.map (fun c => compileStep c.step) := by
+    apply List.map_congr_left
+    intro c hc
+    obtain ⟨s, h1, h2, h3⟩ := h c hc
+    rw [nameSeg_text c s h1 h2, h1]
+    simp [compileStep, (escapeSeg_facts true c.sp.escAll s h3).2.2.2]
+  simp only [print, Bool.false_and, Bool.false_eq_true, if_false, List.append_nil, compile, CPath.abstract,
+    List.map_map]
+  cases cs with
+  | nil =>
+    cases top with
+    | true => simpa [printSteps] using tokenize_root
+    | false => simpa [printSteps] using tokenize_empty
+  | cons c r =>
+    obtain ⟨s, h1, h2, _⟩ := h c (by simp)
+    have hr := printSteps_false r (fun x hx => h x (by simp [hx]))
+    have hok : SegsOK ((c :: r).map (fun c => c.text.1)) :=
+      segsOK_of_all _ (fun x hx => (htexts x hx).1)
+    have hpl : ∀ x ∈ (c :: r).map (fun c => c.text.1), PlainSeg x := fun x hx => (htexts x hx).2
+    have hps : printSteps true (c :: r) = c.text.1 ++ slashJoin (r.map (fun c => c.text.1)) := by
+      simp only [printSteps, Bool.true_or, if_true, hr]
+    simp only [List.map_cons] at hok hpl hnames
+    cases top with
+    | true =>
+      have hj : ['/'] ++ printSteps true (c :: r) = slashJoin (c.text.1 :: r.map (fun c => c.text.1)) := by
+        rw [hps]; simp [slashJoin]
+      simp only [if_true]
+      rw [hj, tokenize_segs _ _ hok hpl]
+      simp only [List.map_cons, List.map_map, Function.comp_def] at hnames ⊢
+      rw [← hnames]
+      simp
+    | false =>
+      simp only [Bool.false_eq_true, if_false, List.nil_append]
+      rw [hps, tokenize_rel_segs _ _ hok hpl]
+      simp only [List.map_cons, List.map_map, Function.comp_def] at hnames ⊢
+      rw [← hnames]
+
+/-- non-vacuity: `/a\/b/\./x\\.y` (names `a/b`, `.`, `x\.y`) -/
+example : NameSeg ⟨.name ['a', '/', 'b'], {}⟩ ∧ NameSeg ⟨.name ['.'], {}⟩ ∧
+    NameSeg ⟨.name ['x', '\\', '.', 'y'], {}⟩ :=
+  ⟨⟨_, rfl, rfl, by decide⟩, ⟨_, rfl, rfl, by decide⟩, ⟨_, rfl, rfl, by decide⟩⟩
 
 end Flatland.C14.Proofs
